@@ -4,7 +4,7 @@ cd /verif
 for d in /tmp/wt/C*/seed/*; do
   [ -f "$d/patch.diff" ] && [ -f "$d/demo.py" ] || continue
   prop=$(echo $d | sed 's#/tmp/wt/\(C[0-9]*\)/seed/.*#\1#'); n=$(basename $d)
-  name="$prop-$n"
+  name="$prop-$((n + ${ROUND_OFFSET:-0}))"
   [ -f "seeded/$name/meta.json" ] && continue
   /venv/bin/python tools/seed_eval.py $d $prop --name $name > /tmp/seed_$name.log 2>&1
   /venv/bin/python - "$name" <<'P'
